@@ -326,6 +326,33 @@ def rule_constructs(ctx: Ctx, out: Collector) -> None:
         out.bad('OO-3', cons, ctx.p.loc(trav, oo), 'the builder does not translate an InputOneOf declaration faithfully: ' + '; '.join(problems),
                 props={'C10', 'C15'})
 
+    # ---- BD-8: synthetic ids are unique per declared parameter
+    cur = _current_node_var(trav)
+    for bname, bnode in (('SwitchCaseMark', sw), ('InputOneOfMark', oo)):
+        for c in all_calls(bnode):
+            if (dotted(c.func) or '').split('.')[-1] != 'generate_node_id':
+                continue
+            cons8 = base + f'::{bname} branch: synthetic id {unparse(c)[:60]} is unique per parameter'
+            name_arg = c.args[1] if len(c.args) > 1 else next((k.value for k in c.keywords if k.arg == 'name'), None)
+            pre_arg = c.args[0] if c.args else None
+            whole = unparse(c)
+            ok8 = False
+            why8 = ''
+            if name_arg is None:
+                ok8 = True                      # fresh uuid suffix
+            elif isinstance(name_arg, ast.Attribute) and unparse(name_arg) == f'{mark_var}.name':
+                ok8 = True                      # the user's own name, a fresh uuid when it is None
+            elif cur in whole and any(isinstance(x, ast.Name) and x.id in ('idx', kw_var) for x in ast.walk(c)):
+                ok8 = True                      # consumer id + parameter index / name
+            else:
+                why8 = f'the name part {unparse(name_arg)} is neither the mark\'s own name, a fresh id, nor (consumer, parameter)'
+            if ok8:
+                out.ok('BD-8', cons8, ctx.p.loc(trav, c), 'own name / fresh id / (consumer, parameter index)')
+            else:
+                out.bad('BD-8', cons8, ctx.p.loc(trav, c),
+                        f'two different declared parameters can get the same synthetic node id ({why8}): their synthetic nodes collapse, '
+                        f'the case / candidate tables merge and one parameter receives the other\'s value', props={'C15', 'C09', 'C10'})
+
     # ---- recurrent
     rc = br.get('RecurrentSubGraphMark')
     if rc is None:
@@ -481,6 +508,8 @@ def rule_node_map_and_validation(ctx: Ctx, out: Collector) -> None:
         out.bad('VL-1', cons, ctx.p.loc(trav, wl), 'a node taken from the worklist is used (added to the map / graph, inspected) before or '
                                                    'without being validated: an invalid declaration is built instead of rejected',
                 props={'C16'})
+    # ---- VL-6: everything that enters the seen-set of the traversal is also put on the worklist
+    _seen_set_rule(ctx, out, b, trav, wl)
     # validate_node calls both checks
     val = b.methods.get('validate_node')
     if val is not None:
@@ -562,6 +591,97 @@ def rule_node_map_and_validation(ctx: Ctx, out: Collector) -> None:
             out.ok('VL-4', cons, ctx.p.loc(vg, vg.node), f'{sorted(want)}')
         else:
             out.bad('VL-4', cons, ctx.p.loc(vg, vg.node), f'_validate_graph does not run {missing or "any recurrent validation"}', props={'C16'})
+
+
+def _seen_set_rule(ctx: Ctx, out: Collector, b: ClassInfo, trav: FuncUnit, wl: ast.While) -> None:
+    """The traversal pushes a node only if it is not in a seen-set S.  Every node that enters S must be pushed
+    in the same step (otherwise it is never popped, i.e. never validated nor translated)."""
+    cons = f'{trav.module.name}::{trav.qualname}::every node entering the seen-set is pushed onto the worklist'
+    stack_name = None
+    if isinstance(wl.test, ast.Name):
+        stack_name = wl.test.id
+    pushes = [n for n in ast.walk(trav.node) if isinstance(n, ast.Call) and isinstance(n.func, ast.Attribute)
+              and n.func.attr in ('append', 'appendleft', 'extend') and isinstance(n.func.value, ast.Name) and n.func.value.id == stack_name]
+    if stack_name is None or not pushes:
+        raise AnalysisError('worklist pushes not found in the traversal (VL-6 anchor vanished)')
+    from ..guards import guards as _guards
+    S = None            # textual name of the seen-set container
+    via_helper = None
+    for psh in pushes:
+        owner = trav
+        for u in [trav] + list(trav.nested.values()):
+            if any(x is psh for x in ast.walk(u.node)):
+                owner = u
+        for e, pol in _guards(owner.node, psh):
+            if isinstance(e, ast.Compare) and isinstance(e.ops[0], ast.In):
+                S = unparse(e.comparators[0])
+            elif isinstance(e, ast.Call) and pol:
+                # pushed only if helper(node) is true: the helper decides membership
+                fn = e.func.attr if isinstance(e.func, ast.Attribute) else (e.func.id if isinstance(e.func, ast.Name) else None)
+                helper = b.methods.get(fn) if fn else None
+                if helper is not None:
+                    via_helper = helper
+                    for x in ast.walk(helper.node):
+                        if isinstance(x, ast.Compare) and isinstance(x.ops[0], (ast.In, ast.NotIn)):
+                            S = unparse(x.comparators[0])
+    if S is None:
+        raise AnalysisError('membership test guarding the worklist push not found (VL-6 anchor vanished)')
+    problems = []
+    # writes into S outside the push step
+    for m in b.methods.values():
+        units = [m] + list(m.nested.values())
+        for u in units:
+            for n in ast.walk(u.node):
+                writes = False
+                if isinstance(n, ast.Call) and isinstance(n.func, ast.Attribute) and n.func.attr in ('add', 'update') and unparse(n.func.value) == S:
+                    writes = True
+                if isinstance(n, ast.Assign) and any(isinstance(t, ast.Subscript) and unparse(t.value) == S for t in n.targets):
+                    writes = True
+                if isinstance(n, ast.Call) and via_helper is not None and isinstance(n.func, ast.Attribute) and n.func.attr == via_helper.name \
+                        and u is not via_helper:
+                    # a call of the membership-deciding helper: does a push depend on it?
+                    pm = parents(u.node)
+                    par = pm.get(id(n))
+                    used_as_guard = isinstance(par, (ast.If, ast.BoolOp, ast.UnaryOp))
+                    if not used_as_guard:
+                        problems.append(f'{u.qualname}: {unparse(n)[:60]} enters the seen-set without a push')
+                    continue
+                if not writes:
+                    continue
+                if via_helper is not None and u is via_helper:
+                    continue
+                # same block contains a push of the same element?
+                pm = parents(u.node)
+                blk = None
+                cur_ = n
+                while id(cur_) in pm and blk is None:
+                    par = pm[id(cur_)]
+                    for f_ in ('body', 'orelse'):
+                        lst = getattr(par, f_, None)
+                        if isinstance(lst, list) and cur_ in lst:
+                            blk = lst
+                    cur_ = par
+                has_push = blk is not None and any(isinstance(x, ast.Call) and isinstance(x.func, ast.Attribute)
+                                                   and x.func.attr in ('append', 'appendleft') and unparse(x.func.value) == stack_name
+                                                   for st in blk for x in ast.walk(st))
+                if not has_push:
+                    problems.append(f'{u.qualname}: {unparse(n)[:60]} enters the seen-set without a push')
+    # initial content of S must equal the initial content of the stack
+    for n in ast.walk(trav.node):
+        if isinstance(n, ast.Assign) and any(unparse(t) == S for t in n.targets) and isinstance(n.value, (ast.Set, ast.Call, ast.List)):
+            init_s = sorted(unparse(x) for x in ast.walk(n.value) if isinstance(x, ast.Name) and x.id not in ('set', 'list', 'deque'))
+            init_stack = []
+            for m_ in ast.walk(trav.node):
+                if isinstance(m_, ast.Assign) and any(isinstance(t, ast.Name) and t.id == stack_name for t in m_.targets):
+                    init_stack = sorted(unparse(x) for x in ast.walk(m_.value) if isinstance(x, ast.Name) and x.id not in ('set', 'list', 'deque'))
+            if init_s != init_stack:
+                problems.append(f'the seen-set starts as {init_s} but the worklist as {init_stack}')
+    if not problems:
+        out.ok('VL-6', cons, ctx.p.loc(trav, wl), f'seen-set {S}: every insertion is paired with a push onto {stack_name}')
+    else:
+        out.bad('VL-6', cons, ctx.p.loc(trav, wl),
+                f'a node can be recorded as seen ({S}) without being put on the worklist: it is never popped, so it is neither validated '
+                f'nor translated ({"; ".join(problems[:2])})', props={'C16', 'C15'})
 
 
 def _loop_var_of(node: ast.AST, ref: str, args: List[str]) -> bool:
